@@ -550,21 +550,34 @@ def _partition_model(ctx: Ctx, mc: pf.Module):
 
 
 def _judge(parts: List[Tuple[int, int]], L: int, S: int, inc_start: bool, inc_end: bool):
-    """(coverage problem, length problem) for one (L, S)."""
-    cov = [0] * (L + 2)
+    """(coverage problem, length problem) for one (L, S); interval arithmetic only (contigs have 10^8 bases)."""
+    eff = []
     longest = 0
     out_of_range = None
     for a, b in parts:
         lo = a if inc_start else a + 1
         hi = b if inc_end else b - 1
+        if hi < lo:
+            continue
         longest = max(longest, hi - lo + 1)
-        for x in range(lo, hi + 1):
-            if 1 <= x <= L:
-                cov[x] += 1
-            else:
-                out_of_range = x
-    missing = [x for x in range(1, L + 1) if cov[x] == 0]
-    twice = [x for x in range(1, L + 1) if cov[x] > 1]
+        if lo < 1:
+            out_of_range = lo
+        if hi > L:
+            out_of_range = hi
+        eff.append((lo, hi))
+    eff.sort()
+    missing: List[int] = []
+    twice: List[int] = []
+    expected = 1
+    for lo, hi in eff:
+        if lo > expected and len(missing) < 4:
+            missing += list(range(expected, min(lo, expected + 4)))
+        if lo < expected and len(twice) < 4:
+            twice += list(range(max(lo, 1), min(hi, expected - 1) + 1))[:4]
+        expected = max(expected, hi + 1)
+    if expected <= L and len(missing) < 4:
+        missing += list(range(expected, min(L + 1, expected + 4)))
+    missing = [x for x in missing if 1 <= x <= L]
     cp = None
     if missing:
         cp = f'base(s) {missing[:3]}{"..." if len(missing) > 3 else ""} of 1..{L} are in no interval'
